@@ -98,6 +98,24 @@ SCALAR_KW_FOR_BASE = {
 }
 
 
+def crossable_dicts(kw, depth=0):
+    """(container, key) of every dict with two or more members, not all alike, in the keyword values of a node
+    (object literals, `patternProperties`, `dependencies`), so that the mutation can replace it in place."""
+    out = []
+    items = kw.items() if isinstance(kw, dict) else enumerate(kw)
+    for key, val in items:
+        if depth == 0 and key == "properties":
+            continue
+        if isinstance(val, dict) and "t" not in val:
+            if len(val) >= 2 and len({canon(v) for v in val.values()}) >= 2:
+                out.append((kw, key))
+            if depth < 2:
+                out += crossable_dicts(val, depth + 1)
+        elif isinstance(val, list) and depth < 2:
+            out += crossable_dicts(val, depth + 1)
+    return out
+
+
 def mutate_spec(rng, spec):
     """One-point mutant of a spec -> (mutant, kind, extra values aimed at the point) or None."""
     from vlib.checks.c13 import SCALAR_KW, allowed_scalar, small_spec  # pylint: disable=import-outside-toplevel
@@ -134,6 +152,9 @@ def mutate_spec(rng, spec):
         lits = [k for k in ("const", "enum", "default") if k in kw and lookalike_of(rng, kw[k]) is not None]
         if lits:
             options += ["literal_lookalike"] * 3
+        crossed = crossable_dicts(kw)
+        if crossed:
+            options += ["dict_crossed"] * 3
         holder = node.get("props") if kind == "Object" else kw.get("properties")
         if holder:
             options += ["prop_required", "prop_source", "prop_key", "prop_removed", "sub_replaced"]
@@ -251,6 +272,18 @@ def mutate_spec(rng, spec):
                 holder[name] = dict(holder[name], el=new)
         elif choice == "elements_reordered":
             node["elements"] = node["elements"][1:] + node["elements"][:1]
+        elif choice == "dict_crossed":
+            # the same member names in another order, with the values of two of them exchanged: two coordinated
+            # differences which a comparison pairing `.values()` by position takes for none
+            parent, key = rng.choice(crossed)
+            old = parent[key]
+            names = list(old)[::-1]
+            new = {name: copy.deepcopy(old[name]) for name in names}
+            first, second = [n for n in names if canon(old[n]) != canon(old[names[0]])][:1] + [names[0]]
+            new[first], new[second] = new[second], new[first]
+            parent[key] = new
+            aimed = [copy.deepcopy(old), copy.deepcopy(new)] if not any("t" in v for v in old.values()
+                                                                        if isinstance(v, dict)) else []
         from vlib.checks.c13 import dangling  # pylint: disable=import-outside-toplevel
 
         if canon(mutant) == canon(spec) or dangling(mutant):
